@@ -38,6 +38,7 @@ type MemStore struct {
 	lastFailed string
 	perm       uint64
 	pending    []storeEvent // local writes not yet echoed to watchers
+	parks      parkSet      // writes selected to be held back (Park)
 }
 
 // NewMemStore creates an empty store; call number failAt (1-based, 0 = never) fails.
@@ -75,6 +76,9 @@ func (m *MemStore) Put(ctx context.Context, key string, value []byte) error {
 	if err := m.hit("put"); err != nil {
 		return err
 	}
+	if err := m.parkLocked("put", key); err != nil {
+		return err
+	}
 	m.data[key] = append([]byte(nil), value...)
 	m.pending = append(m.pending, storeEvent{key, append([]byte(nil), value...), false})
 	return nil
@@ -85,6 +89,9 @@ func (m *MemStore) Delete(ctx context.Context, key string) error {
 	m.mu.Lock()
 	defer m.mu.Unlock()
 	if err := m.hit("delete"); err != nil {
+		return err
+	}
+	if err := m.parkLocked("delete", key); err != nil {
 		return err
 	}
 	delete(m.data, key)
@@ -131,6 +138,32 @@ func (m *MemStore) Watch(prefix string, cb func(key string, value []byte, delete
 		cb     func(key string, value []byte, deleted bool)
 	}{prefix, cb})
 }
+
+// parkLocked holds the write back if it was selected by Park: the store's lock is dropped while the write waits at
+// its gate (the write is in flight, nothing has been applied), and the write is applied - or refused - when the
+// gate opens. Called and returns with m.mu held.
+func (m *MemStore) parkLocked(op, key string) error {
+	sub := key
+	if i := strings.LastIndexByte(key, '/'); i >= 0 {
+		sub = key[i+1:]
+	}
+	g := m.parks.match(op, sub)
+	if g == nil {
+		return nil
+	}
+	m.mu.Unlock()
+	failed := g.wait()
+	m.mu.Lock()
+	if failed {
+		m.lastFailed = op + "(held back)"
+		return fmt.Errorf("%w (%s %s held back, then refused)", ErrInjected, op, key)
+	}
+	return nil
+}
+
+// Park selects the nth (1-based) future write of kind op ("put", "delete" or "" = either) for subscriber sub
+// ("" = any) to be held back at the returned gate until Gate.Open.
+func (m *MemStore) Park(op, sub string, nth int) *Gate { return m.parks.add(op, sub, nth) }
 
 // Arm resets the call counter and selects the call (1-based, 0 = none) that will fail.
 func (m *MemStore) Arm(failAt int) { m.mu.Lock(); m.calls, m.failAt = 0, failAt; m.mu.Unlock() }
@@ -191,6 +224,25 @@ type FailingAllocStore struct {
 	calls      int
 	failAt     int
 	lastFailed string
+	parks      parkSet
+}
+
+// Park selects the nth (1-based) future write of kind op ("save", "remove" or "" = either) for subscriber sub
+// ("" = any) to be held back at the returned gate until Gate.Open.
+func (f *FailingAllocStore) Park(op, sub string, nth int) *Gate { return f.parks.add(op, sub, nth) }
+
+func (f *FailingAllocStore) park(op, sub string) error {
+	g := f.parks.match(op, sub)
+	if g == nil {
+		return nil
+	}
+	if g.wait() {
+		f.mu.Lock()
+		f.lastFailed = op + "(held back)"
+		f.mu.Unlock()
+		return fmt.Errorf("%w (%s %s held back, then refused)", ErrInjected, op, sub)
+	}
+	return nil
 }
 
 // NewFailingAllocStore wraps inner.
@@ -223,10 +275,16 @@ func (f *FailingAllocStore) SaveAllocation(ctx context.Context, a allocator.Allo
 	if err := f.hit("save"); err != nil {
 		return err
 	}
+	if err := f.park("save", a.SubscriberID); err != nil {
+		return err
+	}
 	return f.Inner.SaveAllocation(ctx, a)
 }
 func (f *FailingAllocStore) RemoveAllocation(ctx context.Context, poolID, sub string) error {
 	if err := f.hit("remove"); err != nil {
+		return err
+	}
+	if err := f.park("remove", sub); err != nil {
 		return err
 	}
 	return f.Inner.RemoveAllocation(ctx, poolID, sub)
@@ -248,4 +306,78 @@ func (f *FailingAllocStore) GetPoolUtilization(ctx context.Context, poolID strin
 }
 func (f *FailingAllocStore) ListPools(ctx context.Context) ([]string, error) {
 	return f.Inner.ListPools(ctx)
+}
+
+// ---------------------------------------------------------------- holding a write back (harness-owned schedules)
+
+// Gate is one store write held back by the harness: the write blocks at the gate until Open decides its outcome.
+type Gate struct {
+	op, sub string
+	nth     int
+	seen    int
+	arrived chan struct{} // closed when a write reached the gate
+	open    chan struct{} // closed by Open
+	fail    bool
+	aOnce   sync.Once
+	oOnce   sync.Once
+}
+
+// Arrived is closed once a write is waiting at (or has passed) the gate.
+func (g *Gate) Arrived() <-chan struct{} { return g.arrived }
+
+// Reached reports whether a write has reached the gate.
+func (g *Gate) Reached() bool {
+	select {
+	case <-g.arrived:
+		return true
+	default:
+		return false
+	}
+}
+
+// Open lets the write through: it is applied (fail=false) or refused with ErrInjected (fail=true). A write that
+// reaches an already open gate passes at once with the same outcome. Only the first call counts.
+func (g *Gate) Open(fail bool) {
+	g.oOnce.Do(func() {
+		g.fail = fail
+		close(g.open)
+	})
+}
+
+func (g *Gate) wait() (failed bool) {
+	g.aOnce.Do(func() { close(g.arrived) })
+	<-g.open
+	return g.fail
+}
+
+type parkSet struct {
+	mu    sync.Mutex
+	gates []*Gate
+}
+
+func (p *parkSet) add(op, sub string, nth int) *Gate {
+	if nth < 1 {
+		nth = 1
+	}
+	g := &Gate{op: op, sub: sub, nth: nth, arrived: make(chan struct{}), open: make(chan struct{})}
+	p.mu.Lock()
+	p.gates = append(p.gates, g)
+	p.mu.Unlock()
+	return g
+}
+
+// match returns the gate this write must wait at (each gate takes exactly one write), or nil.
+func (p *parkSet) match(op, sub string) *Gate {
+	p.mu.Lock()
+	defer p.mu.Unlock()
+	for _, g := range p.gates {
+		if g.seen >= g.nth || (g.op != "" && g.op != op) || (g.sub != "" && g.sub != sub) {
+			continue
+		}
+		g.seen++
+		if g.seen == g.nth {
+			return g
+		}
+	}
+	return nil
 }
